@@ -8,6 +8,7 @@ mod api;
 mod arith;
 mod expr;
 mod find;
+mod sections;
 
 use std::fs;
 use std::path::Path;
@@ -64,6 +65,9 @@ fn run(src: &Path, out: &Path) -> Result<(), String> {
             .join(",\n"),
     );
     json.push_str("\n],\n");
+
+    // GenPanic
+    write_if_changed(&out.join("GenPanic.v"), &sections::gen(&map)?);
 
     // GenApi
     let mut rows = api::rows(&map, "map.rs", &["HashMap"]);
